@@ -329,16 +329,16 @@ let main_exec () =
       | "NM" :: ml :: _ :: rest -> multiline := bos ml; gnames := List.map parse_hex rest
       | "G" :: nl :: ng :: uni :: sp ->
         hdr := Some (ios nl, ios ng, bos uni, parse_sp sp);
-        (* lookaround capture ranges (IRShape.look_wf): what the backtracker theorem assumes of every IR *)
+        (* IRShape.bt_wf (lookaround capture ranges, Loop1CharBody bodies and bounds): what the backtracker theorem assumes of every IR *)
         List.iter (fun (tag, ir) -> match ir with
           | None -> ()
           | Some n ->
             incr stage_checks;
-            if not (look_wf (nat_of_int (ios ng)) (ir_top n)) then begin
+            if not (bt_wf (nat_of_int (ios ng)) (ir_top n)) then begin
               incr mism;
-              Printf.printf "MISMATCH stage=IRshape-%s case=%s pat=%s flags=%s detail=look_wf:false\n" tag !cur_id !cur_pat !cur_flags
-            end;
-            if bt_wf (nat_of_int (ios ng)) (ir_top n) then incr bt_covered) [("ir0", !ir0); ("ir1", !ir1)]
+              Printf.printf "MISMATCH stage=IRshape-%s case=%s pat=%s flags=%s detail=bt_wf:false,look_wf:%b\n" tag !cur_id !cur_pat !cur_flags
+                (look_wf (nat_of_int (ios ng)) (ir_top n))
+            end else incr bt_covered) [("ir0", !ir0); ("ir1", !ir1)]
       | "I" :: rest -> insns := parse_insn rest :: !insns
       | "B" :: inv :: rest -> brs := { br_invert = bos inv; br_ivs = pairs rest } :: !brs
       | "H" :: hx :: s :: _ ->
